@@ -175,3 +175,20 @@ def InTxR (t : N) : Prop := rebN true true none none t = true
 instance (t : N) : Decidable (InTxR t) := by unfold InTxR; exact inferInstance
 
 end Bolt.BTree
+
+namespace Bolt.BTree
+
+/-! ### separators untouched since the tree was read: the first separator of a node that has a
+lower bound is that bound.  True of committed trees, kept by `Put`/`Delete` (they never change a
+separator); with `InTx` it gives `InTxR` (`Lemmas/BTreeReb`: `inTxR_of_inTx_tight`). -/
+mutual
+def tightN : Option Bytes → N → Bool
+  | _, .leaf _ _ => true
+  | lo, .branch _ kids =>
+    (match lo with | none => true | some l => kids.head?.map (·.1) == some l) && tightKids lo kids
+def tightKids : Option Bytes → List (Bytes × N) → Bool
+  | _, [] => true
+  | lo, (_, c) :: r => tightN lo c && tightKids (r.head?.map (·.1)) r
+end
+
+end Bolt.BTree
